@@ -95,6 +95,30 @@ def gen_order_case(rnd):
     return 15, ("none", 0), rnd.choice(["udp", "udp", "udp", "unixgram", "tcp"]), model_ops, [(None, [])], False, e2e_ops
 
 
+def gen_big_datagram_case(rnd):
+    """one datagram at the size limits: 65507 bytes (the largest UDP/IPv4 payload) over UDP or unixgram, 65508-65535 bytes over
+    unixgram only; every line of it must be parsed exactly once"""
+    transport = rnd.choice(["udp", "unixgram", "unixgram"])
+    size = 65507 if transport == "udp" else rnd.choice([65507, 65508, 65520, 65535])
+    lines = []
+    total = 0
+    k = 0
+    while True:
+        ln = b"zb%d:1|c" % (k % 7)
+        if total + len(ln) + 1 + 12 > size:
+            break
+        lines.append(ln)
+        total += len(ln) + 1
+        k += 1
+    last = b"zlast" + b"x" * (size - total - len(b"zlast:2|g")) + b":2|g"
+    lines.append(last)
+    pkt = b"\n".join(lines)
+    assert len(pkt) == size, (len(pkt), size)
+    model_ops = [GM.load_op((None, []))] + [PE.I(l) for l in lines] + [PE.I(b"after:1|c"), "G"]
+    e2e_ops = [GM.load_op((None, [])), "P " + vf.hexs(pkt), "P " + vf.hexs(b"after:1|c"), "G"]
+    return 15, ("none", 0), transport, model_ops, [(None, [])], False, e2e_ops
+
+
 def gen_c09_case(rnd):
     """all 16 parser flag sets as the binary's --[no-]statsd.parse-* flags; every datum in its four renderings"""
     import gen_line as GL
@@ -231,14 +255,26 @@ def compare_case(case, obs, model, ticks=None):
     return None
 
 
-def run(rep, pid, tier, seed, n_quick=24, n_thorough=600, gen=None, key="e2e"):
+def replay_case(rep, pid, path):
+    """re-run one end-to-end case from the replay file of an earlier violation; True when the file is such a case"""
+    import json
+    rp = json.load(open(path))
+    if "transport" not in rp or "ops" not in rp or any(o.startswith("...") for o in rp["ops"]):
+        return False
+    cfgs = [None if n_ is None else (None, [None] * n_) for n_ in rp.get("rules_per_config", [])]
+    case = (rp["flags"], tuple(rp["cache"]), rp["transport"], rp["ops"], cfgs, rp.get("reload_by") == "SIGHUP", rp.get("e2e_ops"))
+    run(rep, pid, "quick", rep.seed, key="e2e_replay", cases=[case])
+    return True
+
+
+def run(rep, pid, tier, seed, n_quick=24, n_thorough=600, gen=None, key="e2e", cases=None):
     ok, out = build_binary()
     if not ok:
         rep.violation("the statsd_exporter binary does not build from /repo", dict(log=out[-3000:]), no_input=True)
         return
     rnd = random.Random(seed * 7919 + 17)
     n = n_quick if tier == "quick" else n_thorough
-    cases = [(gen or gen_case)(rnd) for _ in range(n)]
+    cases = cases if cases is not None else [(gen or gen_case)(rnd) for _ in range(n)]
     cases = [tuple(c) + ((None,) if len(c) == 6 else ()) for c in cases]
     lines = [PE.case_line(fl, c[0], c[1], ops) for fl, c, tr, ops, _, _, _ in cases]
     impl, model = PE.run_cases(pid, lines, tag=key)
@@ -275,9 +311,10 @@ def run(rep, pid, tier, seed, n_quick=24, n_thorough=600, gen=None, key="e2e"):
                 ops = ops[:3] + ["... %d more ..." % (len(ops) - 6)] + ops[-3:]
             if len(rep.violations) < 5:
                 rep.violation("end to end (binary over %s): %s" % (tr, d[1]),
-                              dict(flags=fl, cache=list(c), transport=tr, reload_by=("SIGHUP" if hup else "/-/reload"), ops=ops, op_index=d[0], observed=d[2], predicted=d[3],
+                              dict(flags=fl, cache=list(c), transport=tr, reload_by=("SIGHUP" if hup else "/-/reload"), ops=ops, e2e_ops=(eops if eops and len(eops) < 50 else None),
+                                   rules_per_config=[None if c_ is None else len(c_[1]) for c_ in case[4]], op_index=d[0], observed=d[2], predicted=d[3],
                                    readable=[("I " + repr(vf.unhex(o[2:]))[1:]) if o.startswith("I ") else o[:1] for o in ops],
-                                   how_to_replay="lib/e2e_engine.py: start build/statsd_exporter with the flags of harness/cmd/hx/e2e.go, send the lines, scrape /metrics"))
+                                   how_to_replay="bin/check <ID> --replay <this file> re-runs the case against the binary built from /repo (harness/cmd/hx/e2e.go starts it, sends the lines, scrapes /metrics)"))
         else:
             g = [o for o in obs[k] if o.startswith("G ok")]
             if g and len(PE.parse_gather(split_w(g[-1])[0])["families"]) >= 2:
